@@ -241,12 +241,23 @@ class kLeastAbsErrorsCycles(walkmodel.AbstractWalkModelDiGraph):
                 for constraint in self.subset_constraints:
                     self.optimization_options["trusted_edges_for_safety"].update(constraint)
 
+        # The repetition bound of an edge is the largest flow value around it. The value of an ignored edge bounds nothing (its
+        # flow constraint is not part of the model): it does not enter the maxima, and an ignored edge itself gets a bound that
+        # follows from the bounds of the other edges - a walk crosses it at most once more than it crosses non-ignored edges.
+        edge_repetition_bounds = self.G.compute_edge_max_reachable_value(flow_attr=self.flow_attr, edges_to_ignore=self.edges_to_ignore)
+        ignored_edge_bound = self.G.number_of_edges() + math.ceil(sum(
+            bound for edge, bound in edge_repetition_bounds.items() if edge not in self.edges_to_ignore
+        ))
+        for edge in edge_repetition_bounds:
+            if edge in self.edges_to_ignore:
+                edge_repetition_bounds[edge] = ignored_edge_bound
+
         # Call the constructor of the parent class AbstractWalkModelDiGraph
         super().__init__(
             G=self.G,
             k=self.k,
             # max_edge_repetition=self.w_max,
-            max_edge_repetition_dict=self.G.compute_edge_max_reachable_value(flow_attr=self.flow_attr),
+            max_edge_repetition_dict=edge_repetition_bounds,
             subset_constraints=self.subset_constraints,
             subset_constraints_coverage=self.subset_constraints_coverage,
             optimization_options=self.optimization_options,
